@@ -221,6 +221,132 @@ def check_connect(res, entries, reach, variant, crash_at):
                  type(r0).__name__))
 
 
+def run_reconnect(entries, first_reach):
+    """two connect() calls with the same reactor and address string: the
+    second one walks the address list from the start again.  Returns the
+    (kind, address) attempts of the second call and its Deferred results."""
+    from twisted.internet.testing import MemoryReactorClock
+    from twisted.python.failure import Failure
+    from twisted.internet.error import ConnectionRefusedError
+    from txdbus import client
+    fakes.reset_process_state()
+    r = MemoryReactorClock()
+    saved = client.reactor
+    client.reactor = r
+    try:
+        addr = ';'.join(ENTRIES[e] for e in entries)
+
+        def attempts_from(start):
+            out = []
+            for c in r.connectors[start:]:
+                pass
+            return out
+
+        def drive(reach):
+            """answers the attempts of the connect() just started"""
+            seen_unix = len(r.unixClients)
+            seen_tcp = len(r.tcpClients)
+            return seen_unix, seen_tcp
+        results = []
+        log = []
+        for round_, reach in enumerate((first_reach, None)):
+            u0, t0, c0 = len(r.unixClients), len(r.tcpClients), \
+                len(r.connectors)
+            res = []
+            d = client.connect(r, addr)
+            d.addBoth(res.append)
+            att = []
+            i = 0
+            while True:
+                # the attempt made so far but not yet answered
+                made_u = r.unixClients[u0:]
+                made_t = r.tcpClients[t0:]
+                n_made = len(made_u) + len(made_t)
+                if n_made <= i:
+                    break
+                conn = r.connectors[c0 + i]
+                # which record is the i-th attempt: follow the entry kinds
+                e = [x for x in entries if x != 'bogus'][i] \
+                    if i < len([x for x in entries if x != 'bogus']) else None
+                if e in ('unix', 'abstract'):
+                    rec = made_u[len([a for a in att if a[0] == 'unix'])]
+                    att.append(('unix', rec[0]))
+                    f = rec[1]
+                else:
+                    rec = made_t[len([a for a in att if a[0] == 'tcp'])]
+                    att.append(('tcp', rec[0], rec[1]))
+                    f = rec[2]
+                if reach is not None and reach == i:
+                    p = f.buildProtocol(None)
+                    t = fakes.FakeTransport()
+                    p.makeConnection(t)
+                    p.connectionLost(fakes.lost_reason())
+                    break
+                f.clientConnectionFailed(
+                    conn, Failure(ConnectionRefusedError('refused')))
+                i += 1
+            log.append(att)
+            results.append(res)
+        return log, results, None
+    except Exception as e:
+        return None, None, '%s: %s' % (type(e).__name__, e)
+    finally:
+        client.reactor = saved
+
+
+def _want_attempts(usable):
+    out = []
+    for e in usable:
+        out.append({'unix': ('unix', '/tmp/sock'),
+                    'abstract': ('unix', '\0abs'),
+                    'tcp': ('tcp', 'h1', 1001),
+                    'nonce': ('tcp', 'h2', 1002)}[e])
+    return out
+
+
+def _task_reconnect(_):
+    res = core.Result()
+    kinds = [k for k in ENTRIES if k != 'bogus']
+    lists = []
+    for n in (1, 2, 3):
+        lists += list(itertools.product(kinds, repeat=n))
+    for entries in lists:
+        for first_reach in [None] + list(range(len(entries))):
+            res.count('states')
+            res.count('transitions')
+            res.count('evaluations')
+            res.count('traces')
+            res.count('nontrivial')
+            log, results, err = run_reconnect(entries, first_reach)
+            rep = {'part': 'reconnect', 'entries': list(entries),
+                   'first_reach': first_reach}
+            if err:
+                res.violation('%s/reconnect/raises' % PROP,
+                              'connecting twice to %r raised %s'
+                              % (entries, err), rep, size=len(entries))
+                continue
+            want1 = _want_attempts(entries if first_reach is None
+                                   else entries[:first_reach + 1])
+            want2 = _want_attempts(entries)
+            if log[0] != want1 or log[1] != want2:
+                res.violation(
+                    '%s/reconnect/order' % PROP,
+                    'address list %r: first connect() tried %r, a second '
+                    'connect() with the same reactor and address tried %r, '
+                    'expected %r' % (entries, log[0], log[1], want2), rep,
+                    size=len(entries))
+            elif len(results[0]) != 1 or len(results[1]) != 1:
+                res.violation(
+                    '%s/reconnect/fired' % PROP,
+                    'address list %r: the two connect Deferreds fired %d and '
+                    '%d times' % (entries, len(results[0]), len(results[1])),
+                    rep, size=len(entries))
+    res.sample({'reconnect': 'every address list of <= 3 entries, first '
+                'connect failing everywhere or reaching entry k and being '
+                'lost, then a second connect()'})
+    return res
+
+
 def _task_connect(task):
     quick, part, nparts = task
     res = core.Result()
@@ -543,7 +669,9 @@ def run(ctx):
         'transport closes after 0..n server steps or not at all; endpoints '
         'must be tried in order and none after the first reachable, and the '
         'Deferred must have fired exactly once at quiescence (connection '
-        'with busName iff Hello succeeded). B: search over the events %r '
+        'with busName iff Hello succeeded); every address list connected to '
+        'twice with the same reactor (the second walk starts from the first '
+        'entry again). B: search over the events %r '
         '(each at most once) with the connection loss as a child of every '
         'reachable state; at the loss every outstanding call must fail once '
         'with the reason, completed ones stay, no timer remains, every '
@@ -556,6 +684,7 @@ def run(ctx):
         'data does not arrive after connectionLost']
     n = ctx.jobs * 2
     ctx.map(_task_connect, [(ctx.quick, i, n) for i in range(n)])
+    ctx.map(_task_reconnect, [0])
     if ctx.quick:
         explore.explore(ctx, LossScenario, {'events': ALL}, max_depth=4,
                         label='loss: all events, depth 4')
@@ -591,6 +720,9 @@ def run(ctx):
 def replay(data):
     if 'scenario' in data:
         return explore.replay_violation(data)
+    if data.get('part') == 'reconnect':
+        res = _task_reconnect(0)
+        return [(s, v['what']) for s, v in res.violations.items()]
     res = core.Result()
     check_connect(res, tuple(data['entries']), tuple(data['reach']),
                   data['variant'], data['crash_at'])
